@@ -168,8 +168,67 @@ def ins_fields(ins):
     return ins.name, ts, cs
 
 
+_SC = {}
+
+
+def self_commuting_names():
+    """The module-level set `_SELF_COMMUTING_GATES` of scheduler.py of the tree under test, read with `ast`
+    (never by importing): a frozenset of names, or None when the module has no such set (then every same-name
+    pair is subject to the controls/targets test).  The model's `Ins.sc` flag is computed from it."""
+    import ast, os
+    from vlib import paths
+    from vlib.core import TranslatorError
+    path = os.path.join(paths.REPO, "src", "qutip_qip", "compiler", "scheduler.py")
+    key = (path, os.path.getmtime(path))
+    if key in _SC:
+        return _SC[key]
+    tree = ast.parse(open(path).read())
+    found = None
+    for node in tree.body:
+        if isinstance(node, ast.Assign) and any(isinstance(t, ast.Name) and t.id == "_SELF_COMMUTING_GATES"
+                                                 for t in node.targets):
+            v = node.value
+            if isinstance(v, ast.Call) and isinstance(v.func, ast.Name) and v.func.id in ("frozenset", "set") \
+                    and len(v.args) == 1:
+                v = v.args[0]
+            if isinstance(v, (ast.List, ast.Tuple, ast.Set)) and all(
+                    isinstance(e, ast.Constant) and isinstance(e.value, str) for e in v.elts):
+                found = frozenset(e.value for e in v.elts)
+            else:
+                raise TranslatorError("_SELF_COMMUTING_GATES of scheduler.py is not a literal set of strings")
+    _SC.clear()
+    _SC[key] = found
+    return found
+
+
+_FX = {}
+
+
+def conflict_fix_flag():
+    """1 when `_add_dependency_among_commuting_gates` of the tree under test takes the parameter `executed`
+    (the repaired recording of conflict edges, fixes/C11-1.patch), read with `ast`; the model's `Cfg.fx`."""
+    import ast, os
+    from vlib import paths
+    path = os.path.join(paths.REPO, "src", "qutip_qip", "compiler", "scheduler.py")
+    key = (path, os.path.getmtime(path))
+    if key not in _FX:
+        _FX.clear()
+        flag = 0
+        for node in ast.walk(ast.parse(open(path).read())):
+            if isinstance(node, ast.FunctionDef) and node.name == "_add_dependency_among_commuting_gates":
+                if any(a.arg == "executed" for a in node.args.args + node.args.kwonlyargs):
+                    flag = 1
+        _FX[key] = flag
+    return _FX[key]
+
+
+def sc_flag(name):
+    w = self_commuting_names()
+    return 1 if (w is None or name in w) else 0
+
+
 def enc_ins(name, ts, cs, dur):
-    return f"{name}:{','.join(map(str, ts))}:{','.join(map(str, cs))}:{dur}"
+    return f"{name}:{','.join(map(str, ts))}:{','.join(map(str, cs))}:{dur}:{sc_flag(name)}"
 
 
 def model_line(method, perm, fields, shuf=None):
@@ -177,6 +236,8 @@ def model_line(method, perm, fields, shuf=None):
     line = f"sched method={method} perm={1 if perm else 0} gates=" + "|".join(enc_ins(*f) for f in fields)
     if shuf:
         line += " shuf=" + ";".join(",".join(map(str, p)) for p in shuf)
+    if conflict_fix_flag():
+        line += " fix=1"
     return line
 
 
@@ -275,7 +336,7 @@ def known_class_pair(specs, N):
     for i in range(len(specs)):
         for j in range(i + 1, len(specs)):
             a, b = specs[i], specs[j]
-            if a[0] != b[0] or not (used_of(a) & used_of(b)):
+            if a[0] != b[0] or not (used_of(a) & used_of(b)) or not sc_flag(a[0]):
                 continue
             same_t = sorted(a[1]) == sorted(b[1])
             same_c = bool(a[2]) and sorted(a[2]) == sorted(b[2])
@@ -298,7 +359,8 @@ def truly_commute(a, b):
 def documented_rule(a, b):
     """Fixed reference copy of the DOCUMENTED commutation rule (= QipVerif.C05.comm_rule_table), on specs
     [name, targets, controls, arg].  It is never compared with the code here; it only *describes* the class
-    "pairs declared commuting" of the recorded known findings, independently of the code under test."""
+    "pairs declared commuting" of the recorded known findings, independently of the code under test (the only
+    thing read from the tree is its literal list of self-commuting names, `self_commuting_names`)."""
     na, nb = a[0], b[0]
     ta, tb, ca, cb = sorted(a[1]), sorted(b[1]), sorted(a[2]), sorted(b[2])
     if na != nb:
@@ -308,4 +370,4 @@ def documented_rule(a, b):
         if x == "CNOT" and y in ("Z", "RZ"):
             return cx == ty
         return False
-    return bool(ca and ca == cb) or ta == tb
+    return bool(sc_flag(na)) and (bool(ca and ca == cb) or ta == tb)
